@@ -9,6 +9,7 @@ from pyvc.engine import Raise, NEXT
 from pyvc import calls
 from specs.common import *
 from specs import event_send              # contract of Event.send
+from specs import event_entry             # contract of Task.cancel
 from specs import outputfunc              # shared field declarations (_f_args, _on_success, ...)
 from specs.outputfunc import keys_present
 
@@ -37,14 +38,14 @@ def impose_queue_only_appended(S, T, q):
     old_arr, old_n = S.f('dq_items', q)
     new_arr = fresh('dq_arr', SeqArr); extra = fresh('dq_extra', IntSort())
     j = Int('j!qa')
-    T.st.heap['dq_items#items'] = Store(T.st.comp('dq_items#items', SeqArr), q, z3.Lambda([j], If(j < old_n, old_arr[j], new_arr[j])))
+    T.st.heap['dq_items#items'] = Store(T.st.comp('dq_items#items', SeqArr), q, z3.Lambda([j], If(j < old_n, old_arr[j], If(Val.is_D(new_arr[j]), new_arr[j], Val.VNone))))      # producers: _event_put (dict), stop (dict / None)
     T.st.heap['dq_items#len'] = Store(T.st.comp('dq_items#len', IntSort()), q, old_n + If(extra > 0, extra, 0))
     T.st.heap['dq_head'] = Store(T.st.comp('dq_head', IntSort()), q, S.f('dq_head', q))
 
 
-def queue_get(ex, st, q):
+def queue_get(ex, st, q, me=None):
     """`await queue.get()` in the control task: other tasks run (they may append), then the oldest waiting item is taken"""
-    post = env_for_ctrl(ex, st, q)
+    post = env_for_ctrl(ex, st, q, me)
     arr, n = View(post).f('dq_items', q); h = View(post).f('dq_head', q)
     post.assume(h < n)                                  # get() returns only when an item is available
     post.write('dq_head', q, ZV('int', h + 1))
@@ -55,15 +56,23 @@ def queue_get(ex, st, q):
 ENV_CTRL = ('_output', 'q_set', '_error', 'cancel_requested', 'task_done', 'task_cancelled', 'task_exception', 'init_steps_completed', 'dq_items')
 
 
-def env_for_ctrl(ex, st, q):
-    post = st.copy()
-    for f in ENV_CTRL: post.havoc_field(f)
-    S, T = View(st), View(post)
+def impose_ctrl_env(S, T, q, me=None):
     impose_error_write_once(S, T); impose_outputs_stay_defined(S, T); impose_queue_only_appended(S, T, q)
-    tx = Int('t!sd2')
+    if me is not None:
+        # the output of an OutputAsync block is written only by the wrapper (scan): a whole number
+        new = T.whole('_output')
+        T.st.heap['_output'] = Store(new, me, If(Val.is_I(new[me]), new[me], S.whole('_output')[me]))
+    tx = Int('t!sd3')
     for f in ('task_done', 'task_cancelled', 'task_exception'):
         new, old = T.whole(f), S.whole(f)
         T.st.heap[f] = z3.Lambda([tx], If(S.whole('task_done')[tx], old[tx], new[tx]))
+
+
+def env_for_ctrl(ex, st, q, me=None):
+    post = st.copy()
+    for f in ENV_CTRL: post.havoc_field(f)
+    S, T = View(st), View(post)
+    impose_ctrl_env(S, T, q, me)
     if post.ghost.get('now') is not None:
         now = fresh('now', RealSort()); post.assume(now >= post.ghost['now']); post.ghost['now'] = now
     return post
@@ -84,8 +93,20 @@ def verify_put(run):
     run.verify('OutputAsync._event_put', cls='OutputAsync')
 
 
-# ---- OutputAsync._output_coro --------------------------------------------------------------------------------------------------------------------
 KINDS = {'success': '_on_success', 'cancel': '_on_cancel', 'error': '_on_error'}
+
+
+def oa_config(S, me):
+    """class invariant established by OutputAsync.__init__"""
+    j = Int('j!cf')
+    A, nA = S.f('_f_args', me); K, nK = S.f('_f_kwargs', me)
+    tuples = [S.f(f, me) for f in KINDS.values()]
+    return And(nA >= 0, nK >= 0, S.f('_guard_time', me) >= 0,
+               ForAll([j], Implies(And(0 <= j, j < nA), Val.is_S(A[j]))), ForAll([j], Implies(And(0 <= j, j < nK), Val.is_S(K[j]))),
+               *[And(n >= 0, events_are_objects(arr, n)) for arr, n in tuples])
+
+
+# ---- OutputAsync._output_coro --------------------------------------------------------------------------------------------------------------------
 
 
 def await_user_coro(ex, node, st):
@@ -97,7 +118,7 @@ def await_user_coro(ex, node, st):
     st = st.copy(); ex.emit(st, rec('coro', fv, a, kw=kw.arr if isinstance(kw, PDict) else EMPTY_DICT))
     outs = []
     for kind in ('success', 'cancel', 'error'):
-        s2 = env_for_ctrl(ex, st, st.readz('_queue', me))
+        s2 = env_for_ctrl(ex, st, st.readz('_queue', me), me)
         s2.ghost['kind'] = kind; s2.ghost['t_result'] = s2.ghost['now']
         if kind == 'success':
             r = fresh('retval', Val); s2.ghost['retval'] = r
@@ -115,7 +136,7 @@ def await_guard_sleep(ex, node, st):
     g = st.readz('_guard_time', me)
     outs = []
     for cancelled in (False, True):
-        s2 = env_for_ctrl(ex, st, st.readz('_queue', me))
+        s2 = env_for_ctrl(ex, st, st.readz('_queue', me), me)
         s2.assume(s2.ghost['now'] >= st.ghost['now'] + g)
         if cancelled:
             s2.label('guard:cancel_pending')
@@ -133,10 +154,10 @@ def _output_coro(c):
     tuples = {k: c.pre(f, me) for k, f in KINDS.items()}
     A, nA = c.pre('_f_args', me); K, nK = c.pre('_f_kwargs', me)
     j = Int('j!oc')
-    c.requires('configuration', And(nA >= 0, nK >= 0, c.pre('_guard_time', me) >= 0,
-               ForAll([j], Implies(And(0 <= j, j < nA), Val.is_S(A[j]))), ForAll([j], Implies(And(0 <= j, j < nK), Val.is_S(K[j]))),
-               *[And(n >= 0, events_are_objects(arr, n)) for arr, n in tuples.values()]))
-    c.raises('DeliveryError', unchanged=False, label='delivery_of_a_result_event_failed')
+    c.requires('configuration', oa_config(c.S, me))
+    q_ = c.pre('_queue', me)
+    c.raises('DeliveryError', unchanged=False, label='delivery_of_a_result_event_failed', impose=lambda S, T: impose_ctrl_env(S, T, q_, me))
+    if not c.verifying: impose_ctrl_env(c.S, c.T, q_, me)
     if not c.verifying:
         return
     g = c.pre('_guard_time', me)
@@ -183,3 +204,361 @@ def verify_output_coro(run):
                            'for ev in self._on_success': inv_result_sends},
                calls={'_args_as_string': lambda ex, e, st: [(st, ZV('str', fresh('argstr', StringSort())))]},
                hooks={'await': awaits({'self._coro(*args, **kwargs)': await_user_coro, 'utils.shield_cancel(*': await_guard_sleep})})
+
+
+# ---- OutputAsync._output_coro_wrapper: counts the active runs ----------------------------------------------------------------------------------------
+WRAP_EFFECTS = tuple(dict.fromkeys(ENV_CTRL + DELIVERY))
+
+
+@contract('OutputAsync._output_coro_wrapper', qual=Q + '_output_coro_wrapper', params={'data': VAL}, modifies=WRAP_EFFECTS, self_cls='OutputAsync',
+          traced=lambda a, st: rec('_output_coro_wrapper', to_val(a['self'], st), to_val(a['data'], st)))
+def _wrapper(c):
+    me, data = c.z('self'), c.v('data')
+    q = c.pre('_queue', me)
+    c.requires('the_data_are_a_dict', Val.is_D(data))
+    c.requires('output_is_the_run_counter', Val.is_I(c.pre('_output', me)))
+    c.requires('configuration', oa_config(c.S, me))
+    c.raises('DeliveryError', unchanged=False, label='delivery_of_an_event_failed', impose=lambda S, T: impose_ctrl_env(S, T, q, me))
+    c.raises('CancelledError', unchanged=False, label='cancelled_during_the_guard_time_or_the_run', impose=lambda S, T: impose_ctrl_env(S, T, q, me))
+    if not c.verifying:
+        impose_ctrl_env(c.S, c.T, q, me)
+        c.ensures('time_passes', c.T.g('now') >= c.S.g('now')) if c.S.g('now') is not None else None
+        return
+    def expected(k, r, st):
+        fn = z3.simplify(Rec.fn(r)).as_string()
+        cur = st.readz('_output', me)
+        if fn == 'set_output' and st.ghost['phase'] == 0:
+            st.ghost['phase'] = 1
+            return [('run_counter_incremented_first', And(k == 0, Rec.recv(r) == Val.Obj(me), Val.is_I(cur), Rec.a0(r) == Val.I(Val.i(cur) + 1)))]
+        if fn == '_output_coro':
+            goals = [('the_run_is_for_the_given_data', And(st.ghost['phase'] == 1, k == 1, Rec.recv(r) == Val.Obj(me), Rec.a0(r) == data))]
+            st.ghost['phase'] = 2
+            return goals
+        if fn == 'set_output':
+            goals = [('run_counter_decremented_last', And(st.ghost['phase'] == 2, k == 2, Rec.recv(r) == Val.Obj(me), Val.is_I(cur), Rec.a0(r) == Val.I(Val.i(cur) - 1)))]
+            st.ghost['phase'] = 3
+            return goals
+        return [('no_other_call', BoolVal(False))]
+    c.expect_trace(expected, 3, normal_len=3, predicate=True)
+    # every exit after the increment passes through the decrement (finally)
+    c.out.raises[1].ensures = lambda post, exc: [post.g('phase') == 3]
+    c.out.raises[0].ensures = lambda post, exc: [Or(post.g('phase') == 3, post.g('phase') == 1)]     # (the increment itself failed to be delivered)
+
+
+def await_output_coro(ex, node, st):
+    """`await self._output_coro(data)` inside the wrapper: its contract; the run counter may be changed meanwhile by other runs
+    (start mode), always by whole numbers"""
+    outs = []
+    me = as_kind(st.env['self'], Ref(), st)
+    for s2, r in ex.ev(node, st):
+        s2.assume(Val.is_I(s2.readz('_output', me)))
+        outs.append((s2, r))
+    return outs
+
+
+def verify_wrapper(run):
+    G = {'phase': 0, 'now': z3.Real('now0')}
+    run.verify('OutputAsync._output_coro_wrapper', cls='OutputAsync', ghost=G,
+               hooks={'await': awaits({'self._output_coro(data)': await_output_coro})})
+
+
+# ---- the control strategies ----------------------------------------------------------------------------------------------------------------------------
+@contract('DataQueue.qsize', modifies=(), result=INT, sig=([Param('self', Ref())], None, None), trusted='asyncio.Queue.qsize')
+def _dq_qsize(c):
+    q = c.z('self')
+    c.returns(ZV('int', q_items(c.S, q)[1] - q_head(c.S, q)))
+
+
+@contract('DataQueue.empty', modifies=(), result=BOOL, sig=([Param('self', Ref())], None, None), trusted='asyncio.Queue.empty')
+def _dq_empty(c):
+    q = c.z('self')
+    c.returns(ZV('bool', q_items(c.S, q)[1] == q_head(c.S, q)))
+
+
+@contract('DataQueue.get_nowait', modifies=('dq_head',), result=VAL, sig=([Param('self', Ref())], None, None), trusted='asyncio.Queue.get_nowait')
+def _dq_get_nowait(c):
+    q = c.z('self')
+    arr, n = q_items(c.S, q); h = q_head(c.S, q)
+    c.requires('an_item_is_waiting', h < n)
+    c.returns(ZV('val', arr[h]))
+    c.ensures('taken', c.post_whole('dq_head') == Store(c.pre_whole('dq_head'), q, h + 1))
+
+
+def await_queue_get(ex, node, st):
+    """`await <queue>.get()`"""
+    outs = []
+    for s1, qv in ex.ev(node.func.value, st):
+        q = as_kind(qv, Ref(), s1)
+        s2, item = queue_get(ex, s1, q, as_kind(s1.env['self'], Ref(), s1))
+        outs.append((s2, item))
+    return outs
+
+
+def items_wf(S, q):
+    """what the producers put into the queue (contracts of _event_put and stop): dicts, or the None sentinel"""
+    j = Int('j!wf')
+    arr, n = q_items(S, q)
+    return And(n >= 0, q_head(S, q) >= 0, q_head(S, q) <= n, ForAll([j], Implies(And(0 <= j, j < n), Or(arr[j] == Val.VNone, Val.is_D(arr[j])))))
+
+
+def ctrl_pre(c, me):
+    q = c.pre('_queue', me)
+    c.requires('queue_holds_put_data_and_sentinels', items_wf(c.S, q))
+    c.requires('configuration', oa_config(c.S, me))
+    c.requires('output_is_the_run_counter', Val.is_I(c.pre('_output', me)))
+    return q
+
+
+@contract('OutputAsync._ctrl_wait', qual=Q + '_ctrl_wait', modifies=WRAP_EFFECTS + ('dq_head',), self_cls='OutputAsync')
+def _ctrl_wait(c):
+    me = c.z('self')
+    q = ctrl_pre(c, me)
+    c.raises('DeliveryError', unchanged=False, label='delivery_of_an_event_failed')
+    c.raises('CancelledError', unchanged=False, label='the_control_task_was_cancelled')
+    if not c.verifying: return
+    h0 = q_head(c.S, q)
+    def expected(k, r, st):
+        arr, n = q_items(View(st), q)
+        return [('one_run_per_queued_item_in_arrival_order', And(Rec.fn(r) == StringVal('_output_coro_wrapper'), Rec.recv(r) == Val.Obj(me),
+                                                                 Rec.a0(r) == arr[h0 + k], q_head(View(st), q) == h0 + k + 1, arr[h0 + k] != Val.VNone))]
+    c.expect_trace(expected, None, normal_len=None, predicate=True)
+    arrT, nT = q_items(c.T, q)
+    c.ensures('served_until_the_sentinel', And(q_head(c.T, q) == h0 + c.T.tn + 1, arrT[h0 + c.T.tn] == Val.VNone))
+
+
+def inv_ctrl_wait(lc):
+    me = as_kind(lc.pre.args['self'], Ref())
+    q = lc.pre.f('_queue', me)
+    st = lc.st
+    h0 = q_head(lc.pre, q)
+    return [('every_taken_item_was_run', q_head(st, q) == h0 + st.tn),
+            ('queue', And(items_wf(st, q), st.f('_queue', me) == q)),
+            ('counter', Val.is_I(st.f('_output', me))),
+            ('configuration', oa_config(st, me))]
+
+
+def verify_ctrl_wait(run):
+    G = {'now': z3.Real('now0')}
+    run.verify('OutputAsync._ctrl_wait', cls='OutputAsync', ghost=G, invariants={'while True': inv_ctrl_wait},
+               hooks={'await': awaits({'self._queue.get()': await_queue_get, '*': lambda ex, node, st: ex.ev(node, st)})})
+
+
+task_coro = Function('task_coro', IntSort(), Val)
+wrapper_coro = Function('wrapper_coro', IntSort(), Val, Val)          # the coroutine object self._output_coro_wrapper(data)
+wrapper_data = Function('wrapper_data', Val, Val)
+
+
+def wrapper_coroutine_call(ex, e, st):
+    """self._output_coro_wrapper(data) not awaited: only creates the coroutine object"""
+    outs = []
+    me = as_kind(st.env['self'], Ref(), st)
+    for s1, dv in ex.ev(e.args[0], st):
+        d = to_val(dv, s1); c = wrapper_coro(me, d)
+        s1 = s1.copy(); s1.assume(wrapper_data(c) == d)
+        outs.append((s1, ZV('val', c)))
+    return outs
+
+
+def oa_create_task(ex, e, st):
+    outs = []
+    for s1, cv in ex.ev(e.args[0], st):
+        if isinstance(cv, Raise): outs.append((s1, cv)); continue
+        s1 = s1.copy(); t = fresh('task', IntSort()); cz = to_val(cv, s1)
+        s1.assume(task_coro(t) == cz, Not(s1.readz('task_done', t)), Not(s1.readz('cancel_requested', t)))
+        ex.emit(s1, rec('create_task', Val.Obj(t), cz))
+        outs.append((s1, ZV('val', Val.Obj(t))))
+    return outs
+
+
+def weakset_call(ex, e, st):
+    return [(st, PSet(K(IntSort(), BoolVal(False)), 'ref'))]
+
+
+def await_gather(ex, node, st):
+    """asyncio.gather(*tasks, return_exceptions=True): returns when every task of the set is finished"""
+    me = as_kind(st.env['self'], Ref(), st)
+    tasks = as_kind(st.env['tasks'], REFSET, st)
+    s2 = env_for_ctrl(ex, st, st.readz('_queue', me), me)
+    t = Int('t!ga')
+    s2.assume(ForAll([t], Implies(tasks[t], s2.comp('task_done', BoolSort())[t])))
+    ca = env_for_ctrl(ex, st, st.readz('_queue', me), me); ca.label('gather:cancelled')
+    return [(s2, P_NONE), (ca, Raise(PExc('CancelledError', val=Val.Obj(fresh('exc', IntSort())), where='callee')))]
+
+
+@contract('OutputAsync._ctrl_start', qual=Q + '_ctrl_start', modifies=WRAP_EFFECTS + ('dq_head',), self_cls='OutputAsync')
+def _ctrl_start(c):
+    me = c.z('self')
+    q = ctrl_pre(c, me)
+    c.raises('CancelledError', unchanged=False, label='the_control_task_was_cancelled')
+    if not c.verifying: return
+    h0 = q_head(c.S, q)
+    def expected(k, r, st):
+        arr, n = q_items(View(st), q)
+        return [('every_item_starts_its_own_run_at_once_in_arrival_order',
+                 And(Rec.fn(r) == StringVal('create_task'), wrapper_data(Rec.a0(r)) == arr[h0 + k], Rec.a0(r) == wrapper_coro(me, arr[h0 + k]),
+                     q_head(View(st), q) == h0 + k + 1, arr[h0 + k] != Val.VNone))]
+    c.expect_trace(expected, None, normal_len=None, predicate=True)
+    arrT, nT = q_items(c.T, q)
+    t = Int('t!cs')
+    c.ensures('served_until_the_sentinel', And(q_head(c.T, q) == h0 + c.T.tn + 1, arrT[h0 + c.T.tn] == Val.VNone))
+    c.ensures('every_started_run_has_finished', ForAll([t], Implies(c.T.g('started_tasks')[t], c.post('task_done', t))))
+
+
+def inv_ctrl_start(lc):
+    me = as_kind(lc.pre.args['self'], Ref())
+    q = lc.pre.f('_queue', me)
+    st = lc.st
+    h0 = q_head(lc.pre, q)
+    tasks = as_kind(lc.local('tasks'), REFSET, st.st)
+    return [('every_taken_item_got_a_run', q_head(st, q) == h0 + st.tn),
+            ('queue', And(items_wf(st, q), st.f('_queue', me) == q)),
+            ('started_tasks_are_remembered', st.st.ghost['started_tasks'] == tasks)]
+
+
+def tasks_add(ex, e, st):
+    """tasks.add(asyncio.create_task(...)): the new task joins the set (ghost copy `started_tasks`)"""
+    outs = []
+    for s1, tv in ex.ev(e.args[0], st):
+        if isinstance(tv, Raise): outs.append((s1, tv)); continue
+        s1 = s1.copy(); t = Val.ref(to_val(tv, s1))
+        cur = as_kind(s1.env['tasks'], REFSET, s1)
+        s1.env['tasks'] = PSet(Store(cur, t, BoolVal(True)), 'ref')
+        s1.ghost['started_tasks'] = Store(s1.ghost['started_tasks'], t, BoolVal(True))
+        outs.append((s1, P_NONE))
+    return outs
+
+
+def verify_ctrl_start(run):
+    G = {'now': z3.Real('now0'), 'started_tasks': K(IntSort(), BoolVal(False))}
+    run.verify('OutputAsync._ctrl_start', cls='OutputAsync', ghost=G, invariants={'while True': inv_ctrl_start},
+               calls={'weakref.WeakSet': weakset_call, 'self._output_coro_wrapper': wrapper_coroutine_call, 'asyncio.create_task': oa_create_task,
+                      'tasks.add': tasks_add},
+               hooks={'await': awaits({'self._queue.get()': await_queue_get, 'asyncio.gather(*': await_gather})})
+
+
+# ---- cancel mode ------------------------------------------------------------------------------------------------------------------------------------------
+def cc_get(ex, node, st):
+    """`await queue.get()` in _ctrl_cancel"""
+    outs = []
+    me = as_kind(st.env['self'], Ref(), st)
+    for s1, qv in ex.ev(node.func.value, st):
+        q = as_kind(qv, Ref(), s1)
+        s2, item = queue_get(ex, s1, q, me)
+        z = item.z
+        s2.ghost['n_items'] = s2.ghost['n_items'] + If(z != Val.VNone, 1, 0)
+        s2.ghost['latest'] = If(z != Val.VNone, z, s2.ghost['latest'])
+        s2.ghost['newer_arrived'] = z != Val.VNone
+        outs.append((s2, item))
+    return outs
+
+
+def cc_get_nowait(ex, e, st):
+    """queue.get_nowait() in _ctrl_cancel: a newer item replaces the one held in `data`, which is then reported as cancelled"""
+    me = as_kind(st.env['self'], Ref(), st)
+    q = as_kind(st.env['queue'], Ref(), st)
+    S = View(st)
+    arr, n = q_items(S, q); h = q_head(S, q)
+    ex.oblige('call:get_nowait/pre:an_item_is_waiting', st, h < n, kind='pre')
+    nC = S.f('_on_cancel', me)[1]
+    ex.oblige('discarded_item_was_reported_to_every_on_cancel_destination', st, Implies(st.ghost['seg_open'], st.tn == st.ghost['seg_start'] + nC), kind='trace')
+    s2 = st.copy(); s2.write('dq_head', q, ZV('int', h + 1))
+    z = arr[h]
+    s2.ghost['n_items'] = s2.ghost['n_items'] + If(z != Val.VNone, 1, 0)
+    s2.ghost['seg_open'] = z != Val.VNone
+    s2.ghost['seg_start'] = s2.tn
+    s2.ghost['discard_item'] = to_val(s2.env['data'], s2)
+    s2.ghost['n_discards'] = s2.ghost['n_discards'] + If(z != Val.VNone, 1, 0)
+    s2.ghost['latest'] = If(z != Val.VNone, z, s2.ghost['latest'])
+    return [(s2, ZV('val', z))]
+
+
+def cc_await_task(ex, node, st):
+    """`await task`: the output task ends (it catches everything itself: contract of _output_coro)"""
+    me = as_kind(st.env['self'], Ref(), st)
+    t = Val.ref(to_val(st.env['task'], st))
+    s2 = env_for_ctrl(ex, st, st.readz('_queue', me), me)
+    s2.assume(s2.readz('task_done', t))
+    ca = env_for_ctrl(ex, st, st.readz('_queue', me), me); ca.label('await_task:cancelled')
+    return [(s2, P_NONE), (ca, Raise(PExc('CancelledError', val=Val.Obj(fresh('exc', IntSort())), where='callee')))]
+
+
+@contract('OutputAsync._ctrl_cancel', qual=Q + '_ctrl_cancel', modifies=WRAP_EFFECTS + ('dq_head',), self_cls='OutputAsync')
+def _ctrl_cancel(c):
+    me = c.z('self')
+    q = ctrl_pre(c, me)
+    c.raises('DeliveryError', unchanged=False, label='delivery_of_an_event_failed')
+    c.raises('CancelledError', unchanged=False, label='the_control_task_was_cancelled')
+    if not c.verifying: return
+    OC, nC = c.pre('_on_cancel', me)
+    def expected(k, r, st):
+        g = st.ghost
+        fn = z3.simplify(Rec.fn(r)).as_string()
+        if fn == 'cancel':
+            return [('a_run_is_cancelled_only_because_a_newer_item_arrived',
+                     And(Rec.recv(r) == g['cur_task'], g['cur_task'] != Val.VNone, g['newer_arrived']))]
+        if fn == 'send':
+            j = k - g['seg_start']
+            return [('discarded_item_is_reported_as_cancelled_with_its_own_data',
+                     And(g['seg_open'], j >= 0, j < nC, Rec.recv(r) == OC[j], Rec.a0(r) == Val.Obj(me),
+                         Rec.kw(r)[StringVal('trigger')] == Opt.Some(S_('cancel')), Rec.kw(r)[StringVal('put')] == Opt.Some(g['discard_item'])))]
+        if fn == 'create_task':
+            goals = [('the_most_recent_item_gets_the_run', And(wrapper_data(Rec.a0(r)) == g['latest'], Rec.a0(r) == wrapper_coro(me, g['latest']), g['latest'] != Val.VNone)),
+                     ('at_most_one_run_is_active', Or(g['cur_task'] == Val.VNone, st.readz('task_done', Val.ref(g['cur_task'])))),
+                     ('discarded_item_was_reported_to_every_on_cancel_destination', Implies(g['seg_open'], k == g['seg_start'] + nC)),
+                     ('every_item_taken_is_run_or_reported_as_cancelled', g['n_items'] == g['n_runs'] + g['n_discards'] + 1)]
+            g['n_runs'] = g['n_runs'] + 1; g['seg_open'] = BoolVal(False); g['cur_task'] = Rec.recv(r); g['newer_arrived'] = BoolVal(False)
+            return goals
+        return [('no_other_call', BoolVal(False))]
+    c.expect_trace(expected, None, normal_len=None, predicate=True)
+    g = c.T.g
+    c.ensures('every_item_taken_was_run_or_reported_as_cancelled', g('n_items') == g('n_runs') + g('n_discards'))
+    c.ensures('the_last_run_has_finished', Or(g('cur_task') == Val.VNone, c.post('task_done', Val.ref(g('cur_task')))))
+
+
+def _cc_common(lc):
+    me = as_kind(lc.pre.args['self'], Ref())
+    q = lc.pre.f('_queue', me)
+    st = lc.st; g = st.st.ghost
+    task = to_val(lc.local('task'), st.st)
+    return me, q, st, g, task, [
+        ('queue', And(items_wf(st, q), st.f('_queue', me) == q, as_kind(lc.local('queue'), Ref(), st.st) == q)),
+        ('configuration', oa_config(st, me)),
+        ('the_task_variable_is_the_current_run', And(task == g['cur_task'], Or(task == Val.VNone, Val.is_Obj(task))))]
+
+
+def inv_cc_outer(lc):
+    me, q, st, g, task, common = _cc_common(lc)
+    stop = truth(lc.local('stop'), st.st)
+    return common + [('every_item_taken_so_far_is_run_or_reported', g['n_items'] == g['n_runs'] + g['n_discards']),
+                     ('no_report_in_progress', Not(g['seg_open']))]
+
+
+def inv_cc_inner(lc):
+    me, q, st, g, task, common = _cc_common(lc)
+    data = to_val(lc.local('data'), st.st)
+    nC = st.f('_on_cancel', me)[1]
+    return common + [('one_item_is_held', And(g['n_items'] == g['n_runs'] + g['n_discards'] + 1, data == g['latest'], Val.is_D(data))),
+                     ('previous_report_complete', Implies(g['seg_open'], st.tn == g['seg_start'] + nC)),
+                     ('the_previous_run_has_ended', Or(task == Val.VNone, st.f('task_done', Val.ref(task)))),
+                     ('not_stopping', Not(truth(lc.local('stop'), st.st)))]
+
+
+def inv_cc_sends(lc):
+    me, q, st, g, task, common = _cc_common(lc)
+    e = lc.entry.st.ghost
+    data = to_val(lc.local('data'), st.st); new_data = to_val(lc.local('new_data'), st.st)
+    return common + [('report_position', And(g['seg_open'], st.tn == g['seg_start'] + lc.i, g['seg_start'] == e['seg_start'], g['discard_item'] == data)),
+                     ('held_items', And(g['n_items'] == g['n_runs'] + g['n_discards'] + 1, new_data == g['latest'], Val.is_D(new_data), Val.is_D(data))),
+                     ('the_previous_run_has_ended', Or(task == Val.VNone, st.f('task_done', Val.ref(task)))),
+                     ('not_stopping', Not(truth(lc.local('stop'), st.st)))]
+
+
+def verify_ctrl_cancel(run):
+    none = Val.VNone
+    G = {'now': z3.Real('now0'), 'n_items': IntVal(0), 'n_runs': IntVal(0), 'n_discards': IntVal(0), 'latest': none, 'cur_task': none,
+         'newer_arrived': BoolVal(False), 'seg_open': BoolVal(False), 'seg_start': IntVal(0), 'discard_item': none}
+    run.verify('OutputAsync._ctrl_cancel', cls='OutputAsync', ghost=G,
+               invariants={'while True': inv_cc_outer, 'while not queue.empty()': inv_cc_inner, 'for ev in self._on_cancel': inv_cc_sends},
+               calls={'queue.get_nowait': cc_get_nowait, 'self._output_coro_wrapper': wrapper_coroutine_call, 'asyncio.create_task': oa_create_task,
+                      'task.done': lambda ex, e, st: [(st, ZV('bool', st.readz('task_done', Val.ref(to_val(st.env['task'], st)))))]},
+               hooks={'await': awaits({'queue.get()': cc_get, 'task': cc_await_task})})
